@@ -223,9 +223,11 @@ def install(pid, rec):
     if pid == 'C03':
         def judge(tag, before, eq):
             b, bph = before; a, aph = rows(eq)
-            if b.shape != a.shape or bph != aph: REC.refuse('ambient: phase set changed during the call (not judged)'); return
+            if b.shape[1] != a.shape[1]: REC.refuse('ambient: chemicals changed during the call (not judged)'); return
+            if bph != aph: REC.hit('ambient:phase-set-changed')      # totals and signs do not depend on the labels
             tb, ta = b.sum(0), a.sum(0); F = tb.sum()
-            bad = np.abs(ta - tb) > 1e-12 * np.maximum(np.abs(ta), np.abs(tb)) + 1e-12 * F
+            REC.check(bool(np.isfinite(a).all()), 'ambient:' + tag, 'non-finite', f'{NODE[0]}: {tag}: non-finite phase flows after a normal return: {a.tolist()}', case=case())
+            bad = ~(np.abs(ta - tb) <= 1e-12 * np.maximum(np.abs(ta), np.abs(tb)) + 1e-12 * F)      # (written so that NaN counts as bad)
             ids = eq.chemicals.IDs
             REC.check(not bad.any(), 'ambient:' + tag, 'balance', f'{NODE[0]}: {tag}: per-chemical totals changed: ' + ', '.join(f'{ids[i]}: {tb[i]!r} -> {ta[i]!r}' for i in np.where(bad)[0][:4]),
                       residual=float((np.abs(ta - tb) / max(F, 1e-300)).max()), case=case())
@@ -312,14 +314,23 @@ def install(pid, rec):
                 A = chems.formula_array          # elements x chemicals
             except Exception:
                 return None
+            if hasattr(rxn, '_reactions'):             # ReactionSystem: every part
+                parts = [balanced(i) for i in rxn._reactions]
+                return None if any(i is None for i in parts) else all(parts)
             st = rxn._stoichiometry
-            st = st.to_array() if hasattr(st, 'to_array') else np.asarray(st, float)
-            if st.ndim != 1: return None
-            if rxn._basis == 'wt': st = st / chems.MW
-            used = np.where(st != 0)[0]
-            if any(not chems.tuple[i].formula for i in used): return None
-            r = A @ st
-            return bool(np.abs(r).max() <= 1e-9 * max(np.abs(st).max(), 1e-300))
+            if isinstance(st, (list, tuple)): rows_ = [i.to_array() if hasattr(i, 'to_array') else np.asarray(i, float) for i in st]      # ReactionSet: every member row
+            else:
+                st = st.to_array() if hasattr(st, 'to_array') else np.asarray(st, float)
+                rows_ = [st] if st.ndim == 1 else list(st)
+            ok = True
+            for st in rows_:
+                if st.ndim != 1: return None             # phase-tagged rows: not judged here
+                if rxn._basis == 'wt': st = st / chems.MW
+                used = np.where(st != 0)[0]
+                if any(not chems.tuple[i].formula for i in used): return None
+                r = A @ st
+                ok = ok and bool(np.abs(r).max() <= 1e-9 * max(np.abs(st).max(), 1e-300))
+            return ok
 
         def rxn_pre(self, material=None, *a, **k):
             if not is_stream(material): return SKIP
@@ -344,22 +355,31 @@ def install(pid, rec):
             REC.check(bool((full >= 0).all()) or bool((tok < 0).any()), 'ambient:nonnegative', 'negative-flow', f'{NODE[0]}: negative flow after a reaction returned normally', case=case())
             if not np.array_equal(tok, mol): REC.mark_nontrivial(f'{NODE[0]}:rxn:{len(REC.nontrivial)}')
         wrap(R.Reaction, '__call__', rxn_pre, rxn_post)
+        for cls in (R.ReactionSet, R.ParallelReaction, R.SeriesReaction, R.ReactionSystem):      # `__call__ = Reaction.__call__` was bound at class creation
+            if '__call__' in cls.__dict__: wrap(cls, '__call__', rxn_pre, rxn_post)
 
     if pid == 'C06':
         def ad_pre(self, stream, *a, **k):
             if not is_stream(stream) or stream.isempty(): return SKIP
             Q = k.get('Q', a[1] if len(a) > 1 else 0.)
             if not isinstance(Q, (int, float)): return SKIP
-            return stream.Hnet, float(Q or 0.)
+            twin = stream.copy()
+            try: self(twin)
+            except Exception: twin = None
+            return stream.Hnet, float(Q or 0.), (None if twin is None else twin.imol.data.to_array().copy())
 
         def ad_post(tok, out, self, stream, *a, **k):
-            H0, Q = tok
+            H0, Q, reacted = tok
+            if reacted is not None:
+                got = stream.imol.data.to_array()
+                sc = max(float(np.abs(reacted).max()), 1e-300)
+                REC.check(got.shape == reacted.shape and bool((np.abs(got - reacted) <= 1e-11 * sc).all()), 'ambient:adiabatic', 'composition', f'{NODE[0]}: adiabatic_reaction left flows {got.tolist()} but the plain call on a copy gives {reacted.tolist()}', case=case())
             C = abs(stream.C)
             if not C or C != C: return
             res = abs(stream.Hnet - (H0 + Q))
             REC.check(res <= 1e-4 * C, 'ambient:adiabatic', 'Hnet', f'{NODE[0]}: adiabatic_reaction: Hnet after {stream.Hnet!r} != Hnet before {H0!r} + Q {Q!r} ({res / C:.3g} K*C)', residual=res / C, case=case())
             REC.mark_nontrivial(f'{NODE[0]}:adiabatic:{len(REC.nontrivial)}')
-        for cls in (R.Reaction, R.ReactionSet, R.ParallelReaction, R.SeriesReaction):
+        for cls in (R.Reaction, R.ReactionSet, R.ParallelReaction, R.SeriesReaction, R.ReactionSystem):
             if 'adiabatic_reaction' in cls.__dict__: wrap(cls, 'adiabatic_reaction', ad_pre, ad_post)
 
     if pid == 'C17':
@@ -434,7 +454,7 @@ def install(pid, rec):
                             if isinstance(obj, (sp.SparseVector, sp.SparseArray, sp.SparseLogicalVector)):
                                 e = sparse_invariant(obj)
                                 REC.hit('ambient:sparse-exit')
-                                if e and 'outside size' in e:
+                                if e and 'outside size' in e and any(t in str(NODE[0]) for t in ('test_sparse_vector_indexing', 'test_sparse_array_indexing')):
                                     # tests/test_sparse.py writes sv[5] on a vector of size 4 on purpose ("size is not strict"); NumPy rejects such an index, so it is outside the property
                                     REC.refuse('ambient: the workload wrote beyond the size of a sparse vector (NumPy rejects the index; not judged)'); continue
                                 REC.check(e is None, 'ambient:stored-entries', f'{label}/{role}', f'{NODE[0]}: after {label} the {role} violates the storage invariant: {e}', case=case())
@@ -459,7 +479,7 @@ def install(pid, rec):
                     e = sparse_invariant(o)
                 except Exception:
                     continue
-                if e and 'outside size' in e: continue
+                if e and 'outside size' in e and any(t in str(NODE[0]) for t in ('test_sparse_vector_indexing', 'test_sparse_array_indexing')): continue
                 REC.check(e is None, 'ambient:stored-entries', 'live-object-at-test-end', f'{NODE[0]}: a live {type(o).__name__} violates the storage invariant at the end of the test: {e}', case=case())
 
     # ------------------------------------------------------------------ C11 views agree on every live stream at the end of each test
@@ -472,7 +492,9 @@ def install(pid, rec):
                 return REC.check(cond, 'ambient:' + clause, key_suffix.split('after-')[0] + 'at-test-end', f'{NODE[0]}: {what}', detail, residual, globals()['case']())
 
             def exception(self, clause, e, what=None, case=None):
-                REC.refuse(f'ambient: reading the views raised {type(e).__name__} (not judged)')
+                if type(e).__name__ in ('TypeError', 'AttributeError', 'KeyError', 'IndexError', 'NameError', 'UnboundLocalError', 'ValueError'):
+                    REC.exception('ambient:' + clause, e, what=f'{NODE[0]}: {what or "reading the views of a live stream raised"}', case=globals()['case']())
+                else: REC.refuse(f'ambient: reading the views raised {type(e).__name__} (not judged)')
 
         def scan():
             q = Quiet()
@@ -553,7 +575,7 @@ def install(pid, rec):
                         except Exception: continue
                         try: a = c14.value_of(s, p)
                         except Exception as e:
-                            REC.refuse(f'ambient: {p} raised on the live stream only (not judged)'); continue
+                            REC.check(False, 'ambient:fresh-twin', p + '/raises-on-live-stream-only', f'{NODE[0]}: live {type(s).__name__} {s.ID}: {p} raised {type(e).__name__}: {str(e)[:80]} but a fresh stream in the same state gives {b!r}', case=case()); continue
                     if isinstance(b, float) and b != b: continue
                     n += 1
                     REC.check(c14.equal(a, b), 'ambient:fresh-twin', p, f'{NODE[0]}: live {type(s).__name__} {s.ID}: {p} = {a!r} but a fresh stream in the same state gives {b!r}', case=case())
@@ -577,6 +599,24 @@ def install(pid, rec):
         for nm in ('IdealActivityCoefficients', 'GroupActivityCoefficients'):
             cls = getattr(ac, nm, None)
             if cls is not None and '__call__' in cls.__dict__: wrap(cls, '__call__', g_pre, g_post)
+
+        # the solvers call gamma.f(x, T, *gamma.args), not the object: with the JIT disabled the class attribute `f` resolves to these module functions
+        def f_pre(x, T, *a, **k):
+            if not isinstance(x, np.ndarray): return SKIP
+            return x.copy()
+
+        def mk_f_post(nm):
+            def f_post(tok, out, x, T, *a, **k):
+                REC.check(np.array_equal(x, tok, equal_nan=True), 'ambient:side-effect', nm, f'{NODE[0]}: {nm}(x, T, ...) modified the caller\'s composition array: {tok.tolist()} -> {x.tolist()}', case=case())
+                if tok.size >= 2: REC.mark_nontrivial(f'{NODE[0]}:{nm}:{len(REC.nontrivial)}')
+            return f_post
+        for nm in ('gamma_UNIFAC', 'gamma_modified_UNIFAC'):
+            fn = getattr(ac, nm, None)
+            if fn is None or not callable(fn): continue
+            wrap(ac, nm, f_pre, mk_f_post(nm), label='activity_coefficients.' + nm)
+            for cls in vars(ac).values():          # classes that bound the function as their `f` at class creation
+                if isinstance(cls, type) and cls.__dict__.get('f') is fn:
+                    INSTALLED.append((cls, 'f', cls.__dict__['f'])); setattr(cls, 'f', staticmethod(getattr(ac, nm)) if isinstance(cls.__dict__['f'], staticmethod) else getattr(ac, nm))
 
     # ------------------------------------------------------------------ C18 port graph of all live units at the end of each test
     if pid == 'C18':
